@@ -147,6 +147,8 @@ type JobResult struct {
 	Unknown     int            `json:"unknown"`
 	SolverMs    int64          `json:"solver_ms"`
 	MaxQueryMs  int64          `json:"max_query_ms"`
+	ModelHits   int            `json:"model_hits"`
+	Fallbacks   int            `json:"fallbacks"`
 	Reached     map[string]int `json:"reached"`
 	Findings    []Finding      `json:"findings"`
 	Unsupported map[string]int `json:"unsupported"`
@@ -240,6 +242,10 @@ func (s *Session) RunJob(job Job) (res JobResult) {
 	res.Decisions, res.Checks = st.Decisions, st.Checks
 	res.Queries, res.Sat, res.Unsat, res.Unknown = st.Queries, st.Sat, st.Unsat, st.Unknown
 	res.SolverMs, res.MaxQueryMs = st.SolverTime.Milliseconds(), st.MaxQuery.Milliseconds()
+	res.ModelHits, res.Fallbacks = st.ModelHits, st.Fallbacks
+	if e.alt != nil {
+		e.alt.close()
+	}
 	res.Reached, res.Findings, res.Unsupported, res.Samples = st.Reached, st.Findings, st.Unsupported, st.Samples
 	for _, r := range rem {
 		res.Remaining = append(res.Remaining, encodePrefix(r))
